@@ -222,7 +222,16 @@ impl ReferenceProcessor<u32, (u32, usize), (u32, usize)> for NextReferenceIdProc
             return Some((START_REFERENCE_ID, missing_refs_result));
         }
 
-        Some((ref_id_result + 1, missing_refs_result))
+        match ref_id_result.checked_add(1)
+        {
+            Some(next_id) => Some((next_id, missing_refs_result)),
+            None if missing_refs_result == 0 => Some((ref_id_result, missing_refs_result)),
+            None =>
+            {
+                error!("[ref: 37] No reference IDs left: the largest ID is already in use");
+                None
+            },
+        }
     }
 }
 
@@ -454,7 +463,29 @@ impl ReferenceProcessor<Arc<AtomicU32>, InsertReferencesResult, InsertReferences
 
             unwritten_content_start_pos += insert_pos - unwritten_content_start_pos;
 
-            let reference_id = next_reference_id.fetch_add(1, std::sync::atomic::Ordering::Relaxed);
+            /* Take the next ID without ever wrapping round: the counter always stays above every
+             * ID handed out, so the last value of the range is never used.
+             */
+            let reference_id = match next_reference_id.fetch_update(
+                std::sync::atomic::Ordering::Relaxed,
+                std::sync::atomic::Ordering::Relaxed,
+                |id| id.checked_add(1),
+            )
+            {
+                Ok(id) => id,
+                Err(_) =>
+                {
+                    task::spawn(async {
+                        error!("[ref: 38] No reference IDs left");
+                    })
+                    .await;
+
+                    return Some(InsertReferencesResult {
+                        failure: true,
+                        num_inserted_references: 0,
+                    });
+                },
+            };
             let insertable_ref_id_string = entry.insertable_reference_string(reference_id);
 
             match scratch_file
